@@ -8,6 +8,7 @@ from pandera.api.base.types import CheckList, ParserList
 from pandera.api.checks import Check
 from pandera.api.hypotheses import Hypothesis
 from pandera.api.parsers import Parser
+from pandera.config import get_config_context
 from pandera.dtypes import UniqueSettings
 from pandera.engines import PYDANTIC_V2
 
@@ -146,6 +147,9 @@ class ComponentSchema(Generic[TDataObject], BaseSchema):
         :returns: validated DataFrame or Series.
 
         """
+        if not get_config_context().validation_enabled:
+            return check_obj
+
         return self.get_backend(check_obj).validate(
             check_obj,
             schema=self,
